@@ -762,9 +762,19 @@ func faultPart(prop string) func(r *ev.Report) {
 			sn = 1
 		}
 
-		r.Rule("fault histories: a catalogue of concrete API calls (every decoder x valid / malformed inputs, textual forms, encoders, group and scalar arithmetic, comparisons, Bits, the three hashing functions x DST classes incl. oversize and zero-length, Random on a stream of distinct blocks incl. failing sources, nil receivers; failing calls are recovered by the caller) with the observation the model prescribes for each; on one goroutine per process, ALL sequences [A, C] over the catalogue and ALL sequences [A, F, C] with F a failing or unusual call and A, C of one family, C ranging over the families of this property; oracle: the last call's observation equals the model's regardless of the history (C15: every buffer handed to any call of the history is bit-identical over its whole backing array after every step); returned slices are overwritten by the caller over their full capacity")
+		r.Rule("fault histories: a catalogue of concrete API calls (every decoder x valid / malformed inputs, textual forms, encoders, group and scalar arithmetic, comparisons, Bits, the three hashing functions x DST classes incl. oversize and zero-length, Random on a stream of distinct blocks incl. failing sources, nil receivers; failing calls are recovered by the caller) with the observation the model prescribes for each; on one goroutine per process, ALL sequences [A, C] over the catalogue and ALL sequences [A, F, C] with F a failing or unusual call and A, C of one family, C ranging over the families of this property; oracle: the last call's observation equals the model's regardless of the history (C15: every buffer handed to any call of the history is bit-identical over its whole backing array after every step); returned slices are overwritten by the caller over their full capacity; observation without verdict: whether method values of the read-only methods bound before an in-place change describe the current value")
 		r.Bound("catalogue", len(ops))
 		r.Bound("shard", fmt.Sprintf("%d/%d", si, sn))
+
+		// method values bound before an in-place change (see boundmethods.go), for the operations of this property;
+		// shard 0 only
+		if si == 0 && !buffers {
+			// recorded, not judged: with a value receiver a method value IS a snapshot by the language's definition, and
+			// the properties quantify over values, not over the time a method value was formed (seeded change C14-15)
+			n := boundMethodViolations(prop, func(key, detail string, c Case) { r.Note("observation (no verdict): %s: %s", key, detail) })
+			r.Bound("bound_method_value_cases", n)
+			r.Evals.Add(int64(n))
+		}
 
 		var faults, targets []int
 
